@@ -80,7 +80,7 @@ class Ctx:
             print("KNOWN-FINDING: property=%s %s [%s; e.g. scenario %s witness %s]" % (self.prop, k.get("summary", ""), kid, v.get("scen"), json.dumps(v.get("w"))))
         reported = {}
         for v in unknown:
-            key = (v.get("mon"), re.sub(r"#\d+", "", str(v.get("scen"))))
+            key = (v.get("mon"), re.sub(r"\d+", "N", str(v.get("scen"))))
             if key in reported:
                 reported[key][1] += 1
                 continue
